@@ -8,12 +8,13 @@ Units policies of a library file:
   renamed   ... under other names (L_ms for ms): the flat model may keep either, consistently
   clash     ... one of them under the name that ANOTHER units has in the importing model (ms defined as a millimetre)
   imported  the library imports its units from a third file (under the same or other names)
+  imported-alias  the library imports plain aliases (A_ms = 1 ms) of units that it also defines itself under their own names
 and, independently, one cn element of a moved component may get units that nothing else uses (defined in the library)."""
 import re
 
 HEAD = '<?xml version="1.0" encoding="UTF-8"?>\n<model xmlns="http://www.cellml.org/cellml/2.0#" xmlns:cellml="http://www.cellml.org/cellml/2.0#" name="%s">\n'
 IMPORT = '  <import xmlns:xlink="http://www.w3.org/1999/xlink" xlink:href="%s">%s</import>\n'
-POLICIES = ['same', 'same', 'renamed', 'clash', 'imported', 'imported-renamed', 'imported-deep', 'imported-deep-clash']
+POLICIES = ['same', 'same', 'renamed', 'clash', 'imported', 'imported-renamed', 'imported-deep', 'imported-deep-clash', 'imported-alias']
 
 
 def split(text):
@@ -84,7 +85,12 @@ def modularise(text, rng, force_policy=None):
                 local = ('I_' + u) if pol == 'imported-renamed' else u
                 mapping[u] = local
                 inner += '<units units_ref="%s" name="%s"/>' % (u, local)
-                if pol.startswith('imported-deep'):
+                if pol == 'imported-alias':
+                    mapping[u] = 'A_' + u
+                    inner = inner[:inner.rindex('<units ')] + '<units units_ref="A_%s" name="A_%s"/>' % (u, u)
+                    need_ulib[u] = units[u]
+                    need_ulib['A_' + u] = '<units name="A_%s"><unit units="%s"/></units>' % (u, u)
+                elif pol.startswith('imported-deep'):
                     # the imported units are defined through an intermediate units of the third file
                     base = re.search(r'<unit units="([^"]+)"', units[u]).group(1)
                     need_ulib[u] = units[u].replace('<unit units="%s"' % base, '<unit units="alias_%s"' % u, 1)
@@ -92,7 +98,14 @@ def modularise(text, rng, force_policy=None):
                 else:
                     need_ulib[u] = units[u]
             text_units = IMPORT % ('ulib.cellml', inner)
+            if pol == 'imported-alias':
+                text_units += ''.join('  %s\n' % units[u] for u in need)
+                # one of the variables keeps the units the library defines itself
+                m1 = re.search(r'<variable name="[^"]+" units="(%s)"' % '|'.join(map(re.escape, need)), body)
+                keep = m1.group(0) if m1 and rng.random() < 0.5 else None
             body = rename_units(body, mapping)
+            if pol == 'imported-alias' and keep:
+                body = body.replace(rename_units(keep, mapping), keep, 1)
             if pol == 'imported-deep-clash':
                 # the library has units of its own under the name of the intermediate units, with another meaning
                 u = need[0]
